@@ -31,8 +31,8 @@ ASSUMPTIONS = [
     "Inputs are normalised to 1e-12 unless normalize=True; MPS tensors have physical dimension 2 and power-of-two bonds with "
     "chi_j <= 2 chi_{j+1} (so that right-canonicalisation keeps the documented shapes); Superposition coefficients are real floats as "
     "documented.",
-    "Global phase is ignored only for StatePrep / AmplitudeEmbedding (docstring: 'up to a global phase'); every other template must "
-    "reproduce the documented amplitudes exactly.",
+    "Global phase is ignored only for StatePrep / AmplitudeEmbedding (docstring: 'up to a global phase') and for single-entry sparse "
+    "states (the only coefficient is a global phase); every other template must reproduce the documented amplitudes exactly.",
     "QROMStatePreparation is exercised on states whose tree angles sit mid-bin, so that the documented truncation is unambiguous under "
     "floating-point rounding; the expected state is the truncated one.",
     "Work-register sizes for SumOfSlatersPrep are taken from SumOfSlatersPrep.required_register_sizes (documented helper).",
@@ -87,7 +87,7 @@ def _vector(draw, dim):
 @st.composite
 def _dense(draw, name, N):
     pool = draw(_pool())
-    n = draw(st.integers(1, N))
+    n = draw(st.sampled_from([1] + 2 * list(range(2, N + 1))))
     spec = {"t": name, "w": pool[:n], "aux": {}}
     if name in ("StatePrep", "AmplitudeEmbedding"):
         pad = draw(st.sampled_from([None, None, (0.0, 0.0), (0.5, 0.0), (0.0, -0.3), (1.0, 1.0)]))
@@ -138,7 +138,7 @@ def _mps(draw, N):
 @st.composite
 def _superposition(draw, N):
     pool = draw(_pool())
-    n = draw(st.integers(1, N))
+    n = draw(st.sampled_from([1] + 2 * list(range(2, N + 1))))
     m = draw(st.integers(1, min(2**n, 6)))
     idx = draw(st.lists(st.integers(0, 2**n - 1), min_size=m, max_size=m, unique=True))
     c = [draw(_f) for _ in range(m)]
@@ -150,7 +150,7 @@ def _superposition(draw, N):
 @st.composite
 def _qrom_sp(draw, N):
     pool = draw(_pool())
-    n = draw(st.integers(1, min(N, 3)))
+    n = draw(st.sampled_from([1, 2, 2, 3, 3][:2 * min(N, 3) - 1]))
     m = draw(st.integers(1, 4))
     nw = draw(st.sampled_from([0, 0, 1, 2]))
     nodes = 2**n - 1
@@ -169,8 +169,8 @@ def _qrom_sp(draw, N):
 @st.composite
 def _sparse(draw, name, N):
     pool = draw(_pool())
-    n = draw(st.integers(1, N))
-    d = draw(st.integers(1, min(2**n, 5)))
+    n = draw(st.sampled_from([1] + 2 * list(range(2, N + 1))))
+    d = draw(st.sampled_from([1] + 3 * list(range(2, min(2**n, 6) + 1))))
     idx = draw(st.lists(st.integers(0, 2**n - 1), min_size=d, max_size=d, unique=True))
     v = draw(_vector(d))
     spec = {"t": name, "w": pool[:n], "idx": idx, "v": v}
@@ -433,7 +433,7 @@ def _judge(Y, psi, n_aux, t, route, spec, feats):
     Y = np.asarray(Y, dtype=complex).reshape(len(psi), 2**n_aux)
     main = Y[:, 0]
     leak = float(np.sum(np.abs(Y[:, 1:]) ** 2)) if n_aux else 0.0
-    phase_free = t in PHASE_FREE
+    phase_free = t in PHASE_FREE or feats.get("single_entry", False)
     ok = leak < 1e-12 and (sim.allclose_phase(main, psi, TOL) if phase_free else np.abs(main - psi).max() <= TOL)
     if ok:
         return bool(not phase_free or np.abs(main - psi).max() <= TOL)
@@ -451,6 +451,23 @@ def _judge(Y, psi, n_aux, t, route, spec, feats):
                sig=f"{t}/{route}", features=dict(feats, route=route))
 
 
+def _guarded(fn, t, route, spec, feats):
+    """Run code under test; an exception raised inside PennyLane on a documented-valid input is a violation of its own."""
+    try:
+        return fn()
+    except (Reject, Viol):
+        raise
+    except Exception as e:  # noqa: BLE001
+        from pv.engine import _origin
+
+        origin, where = _origin(e.__traceback__)
+        if origin != "sut":
+            raise
+        raise Viol("raises", f"{t} via {route}: {type(e).__name__}: {str(e)[:300]} ({where}); spec="
+                   f"{ {k: v for k, v in spec.items() if k != 'pool'} }", sig=f"{t}/{route}:{type(e).__name__}@{where}",
+                   features=dict(feats, route=route, exc=type(e).__name__, where=where)) from None
+
+
 def check(spec):
     import pennylane as qp
 
@@ -462,7 +479,13 @@ def check(spec):
     order = w + auxw
     kind = spec.get("v", {}).get("kind") if isinstance(spec.get("v"), dict) else None
     feats = {"template": t, "kind": kind}
-    op = build(spec, data, aux)
+    if t in ("SumOfSlatersPrep", "PartialUnaryStatePreparation") and len(spec["idx"]) == 1:
+        feats["single_entry"] = True          # the only coefficient is a global phase
+    if spec.get("sparse"):
+        feats["csr"] = True
+    if t == "MPSPrep":
+        feats["mps"] = f"{spec['mode']}:{len(w)}-site"
+    op = _guarded(lambda: build(spec, data, aux), t, "constructor", spec, feats)
     if set(op.wires) - set(order):
         raise Viol("foreign-wires", f"{t}: op.wires={list(op.wires)} not within {order}", sig=t, features=feats)
     labels = [t, f"{t}:n={len(w)}"] + ([f"kind:{kind}"] if kind else [])
@@ -478,12 +501,12 @@ def check(spec):
     seen, max_dyn = [], 0
     exact = True
     for rname, thunk in _routes(op):
-        raw = thunk()
+        raw = _guarded(thunk, t, rname, spec, feats)
         qs = _queue_sig(raw)
         if qs in seen and not any(type(o).__name__ == "Allocate" for o in raw):
             continue
         seen.append(qs)
-        leaves, dyn = F.flatten(raw)
+        leaves, dyn = _guarded(lambda: F.flatten(raw), t, rname, spec, feats)
         dynw = [d["wire"] for d in dyn]
         max_dyn = max(max_dyn, len(dynw))
         full = order + dynw
@@ -512,8 +535,8 @@ def check(spec):
             build(spec, data, aux)
             return qp.state()
 
-        Y = np.asarray(circ(), dtype=complex)
         route = "device-mid-circuit" if mid else "device"
+        Y = np.asarray(_guarded(circ, t, route, spec, feats), dtype=complex)
         exact &= _judge(Y, psi, len(order) + len(spare) - len(w), t, route, spec, feats)
         labels.append(f"{t}/{route}")
     nz = psi[np.abs(psi) > 1e-9]
